@@ -83,12 +83,16 @@ func c13Start(name string, cert tls.Certificate, extra ...*x509.Certificate) *c1
 	s.ln = ln
 	s.addr = ln.Addr().String()
 	srv := &http.Server{Handler: http.HandlerFunc(func(w http.ResponseWriter, r *http.Request) {
-		id := r.URL.Query().Get("call")
+		/* Every call uses the same URL (so that anything keyed by URL is
+		shared between calls); the call is identified by what its shell
+		sends. */
+		b, _ := io.ReadAll(r.Body)
+		id := strings.TrimPrefix(string(b), "shell-output-of-")
+		if id == string(b) {
+			id = "unattributed"
+		}
 		s.mu.Lock()
 		s.hits[id]++
-		s.mu.Unlock()
-		b, _ := io.ReadAll(r.Body)
-		s.mu.Lock()
 		s.bytes[id] += len(b)
 		s.mu.Unlock()
 		w.Header().Set("Connection", "close")
@@ -201,7 +205,7 @@ func (w *c13World) expected(c c13Call) string {
 // run makes the call; gate may be nil.
 func (w *c13World) run(c c13Call, id string, gate func(string)) (verdict string, err error, sh *c13Shell) {
 	sh = &c13Shell{id: id, gate: gate}
-	url := "https://" + w.servers[c.Server].addr + "/io?call=" + id
+	url := "https://" + w.servers[c.Server].addr + "/io"
 	err = simpleshell.Go(context.Background(), simpleshell.ConnConfig{C2: url, Fingerprint: w.pins[c.Pin]}, sh)
 	if nil == err {
 		return "ok", nil, sh
@@ -229,6 +233,11 @@ func (w *c13World) judge(r *ev.Result, where string, rp any, c c13Call, id strin
 		}
 		if 0 != hits || 0 != nbytes {
 			v("request-sent-to-wrong-server/"+want+"/"+c.Pin, fmt.Sprintf("the server's handler ran %d times and received %d body bytes although the call must be %s", hits, nbytes, want))
+		}
+	}
+	for n, s := range w.servers {
+		if h, _ := s.reached("unattributed"); 0 != h {
+			v("unattributed-request", fmt.Sprintf("server %s handled %d request(s) that carry no shell output", n, h))
 		}
 	}
 	/* A call may reach only its own server. */
